@@ -290,10 +290,11 @@ Definition ctl_ok (st : state) : Prop :=
   (wedged st = true -> admin_only st = true) /\
   (exit_q st = Some ByZero <-> (0 < zero_sends st)%nat) /\
   (forall x, exited st = Some x -> x = ByTerm \/ exit_q st = Some x) /\
-  (admin_only st = true -> wedged st = false -> mid_sigint st = false -> queue st = [] -> total st = 0 -> exit_q st <> None) /\
+  (admin_only st = true -> wedged st = false -> mid_sigint st = false -> (0 < qcap st)%nat -> queue st = [] -> total st = 0 -> exit_q st <> None) /\
   (tzero st = true -> tmr st = TNone \/ tmr st = TDead) /\
   (tzero st = false -> tmr st <> TDead) /\
-  (mid_sigint st = true -> admin_only st = true /\ tmr st = TNone /\ exit_q st = None /\ wedged st = false).
+  (mid_sigint st = true -> admin_only st = true /\ tmr st = TNone /\ exit_q st = None /\ wedged st = false) /\
+  (blk st = false -> wedged st = false).
 
 (** client events leave the control state alone and at most append to the queue *)
 Definition is_client_event (e : event) : bool :=
@@ -302,7 +303,7 @@ Definition is_client_event (e : event) : bool :=
   | _ => false
   end.
 
-Definition ctl (st : state) := (admin_only st, total st, tmr st, exit_q st, wedged st, exited st, tzero st, zero_sends st, mid_sigint st, blk st).
+Definition ctl (st : state) := (admin_only st, total st, tmr st, exit_q st, wedged st, exited st, tzero st, zero_sends st, mid_sigint st, blk st, qcap st).
 
 Lemma client_event_ctl : forall st e st', is_client_event e = true -> step st e = Some st' ->
   ctl st' = ctl st /\ (queue st' = queue st \/ exists m, queue st' = queue st ++ [m]).
@@ -343,13 +344,13 @@ Proof.
   intros st e st' H Hs.
   destruct (is_client_event e) eqn:He.
   - destruct (client_event_ctl _ _ _ He Hs) as (Hc & Hq). unfold ctl in Hc. inversion Hc; clear Hc.
-    unfold ctl_ok in *. destruct H as ((A1 & A2) & B & C & D & E & F & G & I & J & K & L & M).
+    unfold ctl_ok in *. destruct H as ((A1 & A2) & B & C & D & E & F & G & I & J & K & L & M & N).
     repeat match goal with X : _ st' = _ st |- _ => rewrite X; clear X end.
     repeat split; try tauto.
-    intros Ha Hw Hm Hqe Ht. destruct Hq as [Hq | (m & Hq)]; rewrite Hq in Hqe; [auto |].
+    intros Ha Hw Hm Hc0 Hqe Ht. destruct Hq as [Hq | (m & Hq)]; rewrite Hq in Hqe; [auto |].
     exfalso. eapply app_one_not_nil; eauto.
   - unfold step in Hs. destruct (exited st) eqn:Ex; try discriminate.
-    destruct H as ((A1 & A2) & B & C & D & E & F & G & I & J & K & L & M).
+    destruct H as ((A1 & A2) & B & C & D & E & F & G & I & J & K & L & M & N).
     destruct e; try discriminate He.
     + (* Sigint *)
       destruct (negb (main_ok st)) eqn:Em; try discriminate.
@@ -373,7 +374,7 @@ Proof.
       destruct ((total st + z =? 0) && admin_only st) eqn:Ez.
       * apply andb_true_iff in Ez. destruct Ez as (Ez & Ea). apply Z.eqb_eq in Ez.
         destruct (exit_q st) eqn:Eq2.
-        -- fin Hs. unfold ctl_ok. cfields. rewrite ?Eq2, ?Ex, ?Hm. fin_ctl.
+        -- fin Hs. unfold ctl_ok. cfields. rewrite ?Eq2, ?Ex, ?Hm. destruct (blk st) eqn:Eb; fin_ctl.
         -- fin Hs. unfold ctl_ok. cfields. rewrite ?Ex, ?Hm.
            assert (Ht : tmr st <> TSent) by (intro X; apply B in X; discriminate).
            assert (Ht2 : tmr st <> TBlocked) by (intro X; apply C in X; discriminate).
@@ -381,7 +382,7 @@ Proof.
            rewrite Hw in *. rewrite Hm in *. fin_ctl.
       * fin Hs. unfold ctl_ok. cfields. rewrite ?Ex.
         repeat split; try tauto; try discriminate.
-        intros Ha Hw' Hm' Hq Ht. rewrite Ha in Ez. rewrite andb_true_r in Ez. apply Z.eqb_neq in Ez. contradiction.
+        intros Ha Hw' Hm' Hc0 Hq Ht. rewrite Ha in Ez. rewrite andb_true_r in Ez. apply Z.eqb_neq in Ez. contradiction.
     + (* TimerFire *)
       destruct (tmr st) eqn:Et; try discriminate.
       assert (Ha : admin_only st = true) by (apply A1; congruence).
@@ -402,8 +403,13 @@ Proof.
       destruct (mid_sigint st) eqn:Em; simpl in Hs; try discriminate.
       destruct (M eq_refl) as (Ha & Ht & Hq & Hw). rewrite Hw in Hs.
       assert (Hz : zero_sends st = 0%nat). { destruct (zero_sends st) eqn:Ez; auto. assert (None = Some ByZero) by (rewrite <- Hq; apply G; lia). discriminate. }
-      destruct (qcap st <=? length (queue st))%nat.
-      * fin Hs. unfold ctl_ok. cfields. rewrite ?Hq, ?Ht, ?Ex, ?Hz, ?Ha. fin_ctl.
+      destruct (qcap st <=? length (queue st))%nat eqn:Ec.
+      * apply Nat.leb_le in Ec.
+        destruct (blk st) eqn:Eb.
+        -- fin Hs. unfold ctl_ok. cfields. rewrite ?Hq, ?Ht, ?Ex, ?Hz, ?Ha. fin_ctl.
+        -- fin Hs. unfold ctl_ok. cfields. rewrite ?Hq, ?Hw, ?Ex, ?Hz, ?Ha.
+           destruct (tzero st) eqn:Etz; fin_ctl;
+             try (match goal with X : queue _ = [] |- _ => rewrite X in Ec; simpl in Ec; lia end).
       * fin Hs. unfold ctl_ok. cfields. rewrite ?Hq, ?Hw, ?Ex, ?Hz, ?Ha.
         destruct (tzero st) eqn:Etz; fin_ctl; try (exfalso; eapply app_one_not_nil; eauto; fail).
 Qed.
@@ -934,7 +940,7 @@ Lemma timer_forces_exit : forall st, Inv st -> exited st = None -> main_ok st = 
   exists tr st', (tr = [TimerFire; ExitDeliver] \/ tr = [ExitDeliver]) /\ run st tr = Some st' /\
                  exists x, exited st' = Some x /\ x <> ByTerm.
 Proof.
-  intros st (_ & _ & ((A1 & A2) & B & C & D & E & F & G & I & J & K & L & M)) Hx Hm Ha Htz.
+  intros st (_ & _ & ((A1 & A2) & B & C & D & E & F & G & I & J & K & L & M & N)) Hx Hm Ha Htz.
   destruct (proj1 (main_ok_split st) Hm) as (Hw & Hmid).
   assert (Hex : forall s x, exited s = None -> main_ok s = true -> exit_q s = Some x -> x <> ByTerm ->
                 exists st', run s [ExitDeliver] = Some st' /\ exists y, exited st' = Some y /\ y <> ByTerm).
@@ -964,7 +970,7 @@ Proof. induction l; simpl; [lia | destruct (counted a); lia]. Qed.
 
 Lemma drain_enabled : forall st m q, exited st = None -> main_ok st = true -> queue st = m :: q ->
   exists st', step st DrainDeliver = Some st' /\ queue st' = q /\ clients st' = clients st /\ leaked st' = leaked st /\
-              admin_only st' = admin_only st /\ exited st' = None /\ mid_sigint st' = mid_sigint st.
+              admin_only st' = admin_only st /\ exited st' = None /\ mid_sigint st' = mid_sigint st /\ qcap st' = qcap st.
 Proof.
   intros st m q Hx Hw Hq. unfold step. rewrite Hx, Hw, Hq. simpl.
   destruct ((total st + m =? 0) && admin_only st); [destruct (exit_q st) |]; eexists; split; try reflexivity;
@@ -974,23 +980,23 @@ Qed.
 (** once every counted client has left (and none died in a panic) the main loop, by delivering what
     is still in the drain channel, gets its exit message — unless it wedges on the way *)
 Lemma all_left_exits : forall n st, Inv st -> length (queue st) = n -> exited st = None -> main_ok st = true ->
-  admin_only st = true -> ncounted (clients st) = 0 -> leaked st = 0 ->
+  (0 < qcap st)%nat -> admin_only st = true -> ncounted (clients st) = 0 -> leaked st = 0 ->
   exists k st', (k <= n)%nat /\ run st (repeat DrainDeliver k) = Some st' /\
                 (wedged st' = true \/
                  exists x st'', x <> ByTerm /\ step st' ExitDeliver = Some st'' /\ exited st'' = Some x).
 Proof.
-  induction n; intros st HI Hlen Hx Hm Ha Hn Hl.
+  induction n; intros st HI Hlen Hx Hm Hcap Ha Hn Hl.
   - destruct (queue st) eqn:Eq; try discriminate.
     exists 0%nat, st. split; auto. split; auto. right.
     destruct (proj1 (main_ok_split st) Hm) as (Hw & Hmid).
-    destruct HI as (_ & (Hc & _) & ((A1 & A2) & B & C & D & E & F & G & I & J & K & L & M)).
+    destruct HI as (_ & (Hc & _) & ((A1 & A2) & B & C & D & E & F & G & I & J & K & L & M & N)).
     rewrite Eq in Hc. simpl in Hc.
     assert (Hq : exit_q st <> None) by (apply J; auto; lia).
     destruct (exit_q st) eqn:Eq2; try congruence.
     exists c. eexists. split. { intro; subst; apply D; auto. }
     rewrite (exit_deliver_enabled _ _ Hx Hm Eq2). split; eauto.
   - destruct (queue st) as [| m q] eqn:Eq; try discriminate.
-    destruct (drain_enabled _ _ _ Hx Hm Eq) as (st1 & Hs & Hq1 & Hc1 & Hl1 & Ha1 & Hx1 & Hm1).
+    destruct (drain_enabled _ _ _ Hx Hm Eq) as (st1 & Hs & Hq1 & Hc1 & Hl1 & Ha1 & Hx1 & Hm1 & Hcap1).
     destruct (proj1 (main_ok_split st) Hm) as (Hw & Hmid).
     destruct (wedged st1) eqn:Hw1.
     + exists 1%nat, st1. split; [lia |]. simpl. rewrite Hs. auto.
@@ -1143,7 +1149,7 @@ Qed.
 
 Lemma tzero_no_timer : forall st, Inv st -> tzero st = true -> step st TimerFire = None.
 Proof.
-  intros st (_ & _ & (A & B & C & D & E & F & G & I & J & K & L & M)) Htz. unfold step.
+  intros st (_ & _ & (A & B & C & D & E & F & G & I & J & K & L & M & N)) Htz. unfold step.
   destruct (exited st); auto. destruct (K Htz) as [H | H]; rewrite H; reflexivity.
 Qed.
 
@@ -1195,7 +1201,7 @@ Lemma exit_condition : forall tz cap b tr st x, run (init tz cap b) tr = Some st
 Proof. intros tz cap b tr st x Hr Hx. pose proof (exit_has_origin _ _ _ _ _ _ Hr Hx) as H. destruct x; exact H. Qed.
 
 Lemma r_all_left_exits : forall st, reachable st -> exited st = None -> main_ok st = true ->
-  admin_only st = true -> ncounted (clients st) = 0 -> leaked st = 0 ->
+  (0 < qcap st)%nat -> admin_only st = true -> ncounted (clients st) = 0 -> leaked st = 0 ->
   exists k st', (k <= length (queue st))%nat /\ run st (repeat DrainDeliver k) = Some st' /\
                 (wedged st' = true \/
                  exists x st'', x <> ByTerm /\ step st' ExitDeliver = Some st'' /\ exited st'' = Some x).
@@ -1215,7 +1221,104 @@ Proof. intros tr st st' H. apply panic_leaks_counter. apply reachable_Inv. exact
 Lemma r_tzero_no_timer : forall st, reachable st -> tzero st = true -> step st TimerFire = None.
 Proof. intros st H. apply tzero_no_timer. apply reachable_Inv. exact H. Qed.
 
-(** * The wedge schedules *)
+(** * The code as it is ([blk = false]): the main loop never waits on a channel it reads itself *)
+
+Lemma blk_step : forall st e st', step st e = Some st' -> blk st' = blk st /\ tzero st' = tzero st.
+Proof.
+  intros st e st' Hs.
+  destruct (is_client_event e) eqn:He.
+  { destruct (client_event_ctl _ _ _ He Hs) as (Hc & _). unfold ctl in Hc. inversion Hc. auto. }
+  unfold step in Hs. destruct (exited st); try discriminate.
+  destruct e; try discriminate He.
+  - destruct (negb (main_ok st)); try discriminate. destruct (admin_only st); fin Hs; auto.
+  - destruct (negb (main_ok st)); try discriminate. fin Hs. auto.
+  - destruct (negb (main_ok st)); try discriminate. fin Hs. auto.
+  - destruct (negb (main_ok st)); try discriminate. destruct (queue st); try discriminate.
+    destruct ((total st + z =? 0) && admin_only st); [destruct (exit_q st) |]; fin Hs; auto.
+  - destruct (tmr st); try discriminate. destruct (exit_q st); fin Hs; auto.
+  - destruct (negb (main_ok st)); try discriminate. destruct (exit_q st); try discriminate. fin Hs. auto.
+  - destruct (negb (mid_sigint st) || wedged st); try discriminate.
+    destruct (qcap st <=? length (queue st))%nat; [destruct (blk st) eqn:Eb |]; fin Hs; auto.
+Qed.
+
+Lemma blk_run : forall tr st st', run st tr = Some st' -> blk st' = blk st /\ tzero st' = tzero st.
+Proof.
+  induction tr; simpl; intros st st' H. { fin H. auto. }
+  destruct (step st a) eqn:Es; try discriminate.
+  destruct (blk_step _ _ _ Es) as (E1 & E2). destruct (IHtr _ _ H) as (E3 & E4). split; congruence.
+Qed.
+
+Lemma never_wedged : forall st, reachable st -> blk st = false -> wedged st = false.
+Proof.
+  intros st H Hb. destruct (reachable_Inv _ H) as (_ & _ & ((A1 & A2) & B & C & D & E & F & G & I & J & K & L & M & N)).
+  auto.
+Qed.
+
+(** a second zero observation while an exit message is unread is dropped: the message stays, nothing blocks *)
+Lemma second_zero_dropped : forall st st' x, step st DrainDeliver = Some st' -> blk st = false ->
+  exit_q st = Some x -> exit_q st' = Some x /\ wedged st' = wedged st /\ main_ok st' = main_ok st.
+Proof.
+  intros st st' x Hs Hb Hq. unfold step in Hs. destruct (exited st); try discriminate.
+  destruct (negb (main_ok st)) eqn:Em; try discriminate. destruct (main_ok_true _ Em) as (Hw & Hm).
+  destruct (queue st); try discriminate.
+  destruct ((total st + z =? 0) && admin_only st); [rewrite Hq in Hs |]; fin Hs; unfold main_ok; cbn;
+    rewrite ?Hb, ?Hw, ?Hm; auto.
+Qed.
+
+(** SIGINT with a full drain channel: the 0 is dropped, the timer is armed, the loop goes on *)
+Lemma sigint_full_goes_on : forall st, exited st = None -> mid_sigint st = true -> wedged st = false ->
+  blk st = false -> (qcap st <= length (queue st))%nat ->
+  exists st', step st SigintQ = Some st' /\ queue st' = queue st /\ main_ok st' = true /\
+              tmr st' = (if tzero st then TDead else TArmed).
+Proof.
+  intros st Hx Hm Hw Hb Hc. apply Nat.leb_le in Hc. eexists. split.
+  { unfold step. rewrite Hx, Hm, Hw, Hc, Hb. simpl. reflexivity. }
+  unfold main_ok. cbn. rewrite ?Hw. auto.
+Qed.
+
+(** LIVENESS, unguarded: in admin-only mode the process can always get out — by the timer at the latest,
+    whatever the clients do and wherever the main loop is *)
+Lemma exit_liveness : forall st, reachable st -> blk st = false -> tzero st = false -> exited st = None ->
+  admin_only st = true ->
+  exists tr' st', run st tr' = Some st' /\ exists x, exited st' = Some x /\ x <> ByTerm.
+Proof.
+  intros st Hr Hb Htz Hx Ha.
+  pose proof (never_wedged _ Hr Hb) as Hw.
+  destruct (mid_sigint st) eqn:Hm.
+  - assert (Hs : exists s1, step st SigintQ = Some s1 /\ exited s1 = None /\ admin_only s1 = true /\ mid_sigint s1 = false).
+    { unfold step. rewrite Hx, Hm, Hw, Hb. simpl.
+      destruct (qcap st <=? length (queue st))%nat; eexists; (split; [reflexivity |]); cbn; auto. }
+    destruct Hs as (s1 & Hs & Hx1 & Ha1 & Hm1).
+    pose proof (reachable_step _ _ _ Hr Hs) as Hr1.
+    destruct (blk_step _ _ _ Hs) as (Hb1 & Htz1).
+    assert (Hw1 : wedged s1 = false) by (apply never_wedged; auto; congruence).
+    destruct (timer_forces_exit s1) as (tr & st' & _ & Hrun & Hy); auto.
+    + apply reachable_Inv; auto.
+    + apply main_ok_split; auto.
+    + congruence.
+    + exists (SigintQ :: tr), st'. split; auto. simpl. rewrite Hs. exact Hrun.
+  - destruct (timer_forces_exit st) as (tr & st' & _ & Hrun & Hy); auto.
+    + apply reachable_Inv; auto.
+    + apply main_ok_split; auto.
+    + eauto.
+Qed.
+
+(** ... and once every counted client has left (none died in a panic) delivering what is in flight IS the
+    exit: no wedge alternative any more *)
+Lemma all_left_exits_real : forall st, reachable st -> blk st = false -> exited st = None -> main_ok st = true ->
+  (0 < qcap st)%nat -> admin_only st = true -> ncounted (clients st) = 0 -> leaked st = 0 ->
+  exists k st' x st'', (k <= length (queue st))%nat /\ run st (repeat DrainDeliver k) = Some st' /\
+                       x <> ByTerm /\ step st' ExitDeliver = Some st'' /\ exited st'' = Some x.
+Proof.
+  intros st Hr Hb Hx Hm Hc Ha Hn Hl.
+  destruct (all_left_exits (length (queue st)) st) as (k & st' & Hk & Hrun & [Hw | (x & st'' & H1 & H2 & H3)]); auto.
+  - apply reachable_Inv; auto.
+  - exfalso. destruct (blk_run _ _ _ Hrun) as (Hb' & _).
+    assert (wedged st' = false) by (apply never_wedged; [eapply reachable_run; eauto | congruence]). congruence.
+  - exists k, st', x, st''. auto.
+Qed.
+
+(** * The wedge schedules: MUTANT [blk = true] = the code before commit 74943d0 *)
 
 (** W1: a client's -1 is still in flight when SIGINT arrives; it brings the count to zero (exit
     message #1), then the queued 0 is delivered before the exit arm is polled. *)
@@ -1234,13 +1337,13 @@ Definition wedge_cancel : list event :=
   [Sigint; SigintQ; DrainDeliver; Accept Canc TxnMode; AuthDone 0 true; Enter 0; Leave 0 Clean; DrainDeliver; DrainDeliver; TimerFire].
 
 Lemma wedge_witness : forall tr, (tr = wedge_inflight \/ tr = wedge_cancel \/ tr = wedge_overtake) ->
-  exists st, run (init false 2048) tr = Some st /\ wedged st = true /\ all_gone st = true /\ tmr st = TBlocked /\
+  exists st, run (init false 2048 true) tr = Some st /\ wedged st = true /\ all_gone st = true /\ tmr st = TBlocked /\
              total st = 0 /\ queue st = [] /\ exited st = None.
 Proof.
   intros tr [-> | [-> | ->]]; (eexists; split; [vm_compute; reflexivity | vm_compute; repeat split; reflexivity]).
 Qed.
 
-Lemma exit_liveness_refuted : exists tr st, run (init false 2048) tr = Some st /\
+Lemma exit_liveness_refuted : exists tr st, run (init false 2048 true) tr = Some st /\
   all_gone st = true /\ tmr st = TBlocked /\ total st = 0 /\ queue st = [] /\
   forall tr' st', run st tr' = Some st' -> exited st' = None.
 Proof.
@@ -1248,24 +1351,6 @@ Proof.
   exists wedge_overtake, st. repeat split; auto.
   intros tr' st' Hr'. destruct (wedge_forever _ _ _ Hw Hx Hr'). auto.
 Qed.
-
-(** the guard under which the liveness theorems speak: the trace does not wedge *)
-Definition known_wedge (tz : bool) (cap : nat) (tr : list event) : bool :=
-  match run (init tz cap b) tr with Some st => wedged st | None => false end.
-
-Lemma exit_liveness_guarded : forall tz cap tr st, run (init tz cap b) tr = Some st -> known_wedge tz cap tr = false ->
-  mid_sigint st = false -> exited st = None -> admin_only st = true -> tzero st = false ->
-  exists tr' st', run st tr' = Some st' /\ exists x, exited st' = Some x /\ x <> ByTerm.
-Proof.
-  intros tz cap tr st Hr Hk Hm Hx Ha Htz. unfold known_wedge in Hk. rewrite Hr in Hk.
-  destruct (timer_forces_exit st) as (tr' & st' & _ & Hr' & Hy); auto.
-  - apply reachable_Inv. exists tz, cap, tr. exact Hr.
-  - apply main_ok_split. auto.
-  - eauto.
-Qed.
-
-Lemma known_wedge_refuted : exists tr, known_wedge false 2048 tr = true.
-Proof. exists wedge_overtake. vm_compute. reflexivity. Qed.
 
 (** W3: SIGINT on a full drain channel.  1024 cancel requests (or connect/disconnect pairs) whose
     +1/-1 the main loop has not received yet fill the 2048 slots ([qcap]); the SIGINT arm's own
@@ -1282,7 +1367,7 @@ Definition is_tnone (t : timer) : bool := match t with TNone => true | _ => fals
 Definition is_none {A : Type} (o : option A) : bool := match o with None => true | _ => false end.
 
 Definition wedge_full_check : bool :=
-  match run (init false wedge_full_cap) wedge_full with
+  match run (init false wedge_full_cap true) wedge_full with
   | Some st => wedged st && all_gone st && is_tnone (tmr st) && admin_only st && is_none (exited st) &&
                Nat.eqb (length (queue st)) wedge_full_cap && is_none (step st TimerFire)
   | None => false
@@ -1291,12 +1376,12 @@ Definition wedge_full_check : bool :=
 Lemma wedge_full_check_ok : wedge_full_check = true.
 Proof. vm_compute. reflexivity. Qed.
 
-Lemma wedge_full_witness : exists st, run (init false wedge_full_cap) wedge_full = Some st /\ wedged st = true /\
+Lemma wedge_full_witness : exists st, run (init false wedge_full_cap true) wedge_full = Some st /\ wedged st = true /\
   all_gone st = true /\ tmr st = TNone /\ admin_only st = true /\ exited st = None /\ length (queue st) = wedge_full_cap /\
   step st TimerFire = None.
 Proof.
   pose proof wedge_full_check_ok as H. unfold wedge_full_check in H.
-  destruct (run (init false wedge_full_cap) wedge_full) as [st |]; try discriminate.
+  destruct (run (init false wedge_full_cap true) wedge_full) as [st |]; try discriminate.
   exists st. split; auto.
   repeat (apply andb_true_iff in H; destruct H as (H & ?)).
   repeat split; auto.
@@ -1338,7 +1423,7 @@ Proof.
     apply (IHtr s st'); auto. apply (wedged_no_timer_step st a s Hw Ht Es).
 Qed.
 
-Lemma sigint_full_refuted : exists cap tr st, run (init false cap) tr = Some st /\
+Lemma sigint_full_refuted : exists cap tr st, run (init false cap true) tr = Some st /\
   all_gone st = true /\ admin_only st = true /\ tmr st = TNone /\
   forall tr' st', run st tr' = Some st' -> exited st' = None /\ tmr st' = TNone.
 Proof.
@@ -1356,7 +1441,7 @@ Qed.
 Definition exit_under_admitted : list event :=
   [Accept Normal TxnMode; AuthDone 0 true; Sigint; SigintQ; DrainDeliver; ExitDeliver].
 
-Lemma exit_before_counted_refuted : exists tr st c, run (init false 2048) tr = Some st /\
+Lemma exit_before_counted_refuted : exists tr st c, run init_real tr = Some st /\
   exited st = Some ByZero /\ In (OAdmitted 0) (log st) /\ ~ In (OKicked 0) (log st) /\
   nth_error (clients st) 0 = Some c /\ cphase c = Authed /\ ckind c = Normal /\ gate c = false /\ tmr st = TArmed.
 Proof.
